@@ -9,7 +9,8 @@ MANIFEST = {
     "level_text": "Lean 4 theorems, for every configuration, every manifest expiry E, every arrival path (ingest/request, replica receipt, "
                   "announce with any announced TTL / endpoint / assignment), every arrival time and every constant offset between the steady and "
                   "the wall clock: if the manifest is accepted, every record it makes the node write - key-share record, provider contact, "
-                  "replica chunk, pending fetch - ends (as wall time) no later than E and no later than arrival + max_ttl <= arrival + 24 h, also "
+                  "replica chunk, pending fetch - ends (as wall time) no later than E and no later than arrival + max_ttl <= arrival + 24 h, whatever "
+                  "record an earlier manifest for the same chunk id left behind (the key shares are judged against the manifest adopted last), also "
                   "along arbitrary histories of arrivals; a manifest with E <= t or E - t < min_ttl is rejected on every path and the step returns "
                   "the state unchanged; a scheduler pass at or after the recorded expiry dispatches nothing for the entry and removes it. The TTL "
                   "computations in the model are Lean definitions re-translated from the clang AST of the working tree on every run (manifest_ttl, "
@@ -115,9 +116,78 @@ def gen_case(rng, shape, big=False) -> Case:
     return Case(ops=ops, tag=shape)
 
 
+def gen_multi(rng, count) -> Case:
+    """Two or three manifests for the SAME chunk id, in every order of remaining lifetimes (long->short, short->long,
+    equal), through ingest / request / announce / replica receipt, each followed by a look at the cached key shares
+    and the adopted manifest; then ticks around the expiry of the manifest adopted last and of the longest one.
+    (All manifests of a chunk id carry the same key and content hash, so a node that holds the chunk adopts them.)"""
+    ops = []
+    off = rng.choice([1_700_000_000 * S, 1_700_000_000 * S + 400_000_000, 1_700_000_000 * S + 999_999_999, 86400 * S + 123_456_789])
+    if off != 1_700_000_000 * S:
+        ops.append(f"wall {off}")
+    d, mn, mx = rng.choice([(60, 30, 100), (60, 30, 100), (21600, 30, 21600), (600, 60, 3600), (3, 2, 7), (5, 5, 86400)])
+    ops.append(f"cfg {d} {mn} {mx} 300 1 1000000 1 0 0 0 lim=0")
+    now = START
+    c = "c1"
+    span = max(1, mx - mn)
+    lifetimes = sorted({mn + 1 + rng.randrange(span), mn + 1 + rng.randrange(span), mn + 1, mx, mx + 5, (mn + mx) // 2 + 1})
+    order = rng.choice(["long-short", "long-short", "short-long", "equal", "random"])
+    pick = rng.sample(lifetimes, min(count, len(lifetimes)))
+    while len(pick) < count:
+        pick.append(rng.choice(lifetimes))
+    if order == "long-short":
+        pick.sort(reverse=True)
+    elif order == "short-long":
+        pick.sort()
+    elif order == "equal":
+        pick = [pick[0]] * count
+    if rng.random() < 0.15:
+        pick[0] = 10 * YEAR          # a far-future first manifest: capped at max, then a shorter one
+    expiries = []
+    npeer = 0
+    for i, rem in enumerate(pick):
+        e = (now + off) // S + rem
+        expiries.append(e)
+        k = rng.random()
+        if k < 0.35:
+            ops.append(f"ingest {c} {e}")
+        elif k < 0.45:
+            ops.append(f"request {c} {e}")
+        elif k < 0.75:
+            npeer += 1
+            ops.append(f"announce {c} {e} p{npeer} {rng.choice([0, rem, rem + 100, mn])} {rng.choice([0, 1])} {rng.choice([0, 1])}")
+        else:
+            ops.append(f"receive {c} {e} 1")
+        ops.append(f"obs {c}")
+        if i + 1 < len(pick):
+            # stay well inside the lifetime of what has been adopted so far (the earlier record is still cached)
+            room = max(0, (min(expiries) * S - off - now) - (mn + 2) * S)
+            dlt = min(room, rng.choice([0, 1, S - 1, S, 2 * S, 5 * S]))
+            if dlt:
+                ops.append(f"adv {dlt}")
+                now += dlt
+    # ticks around the expiry of the manifest adopted last, then around the longest one
+    for target in (expiries[-1], max(expiries)):
+        t = target * S - off
+        for edge in (-1, 0, 1):
+            if t + edge > now:
+                ops.append(f"adv {t + edge - now}")
+                now = t + edge
+            ops.append("tick")
+            ops.append(f"obs {c}")
+    return Case(ops=ops, tag="pair" if count == 2 else "triple")
+
+
 def generate(ctx, budget):
-    shapes = ["mixed", "mixed", "pending", "far", "single"]
-    return [gen_case(ctx.rng, shapes[i % len(shapes)], ctx.tier == "thorough" and i % 5 == 0) for i in range(budget)]
+    shapes = ["mixed", "mixed", "pending", "far", "single", "pair", "pair", "triple"]
+    out = []
+    for i in range(budget):
+        sh = shapes[i % len(shapes)]
+        if sh in ("pair", "triple"):
+            out.append(gen_multi(ctx.rng, 2 if sh == "pair" else 3))
+        else:
+            out.append(gen_case(ctx.rng, sh, ctx.tier == "thorough" and i % 5 == 0))
+    return out
 
 
 def nontrivial(r: CaseResult) -> bool:
@@ -134,6 +204,9 @@ def nontrivial(r: CaseResult) -> bool:
             if seen.get(t[1]) and not has:
                 gone = True
             seen[t[1]] = has or seen.get(t[1], False)
+    if r.case.tag in ("pair", "triple"):
+        adopted = {o.split("mc=")[1].split()[0] for o in r.impl if "mc=" in o} - {"-"}
+        return len(adopted) >= 2 and gone
     return acc and rej and gone
 
 
@@ -153,7 +226,11 @@ def spec() -> Spec:
              "tampered) / announce with expiry in {past, now, now+1, min-1, min, min+1, mid, max-1, max, max+1, max+2, +10 y .. +250 y}, "
              "announced TTL in {0, +-1, min, max, remaining-1, remaining, remaining+1, remaining+1000, 10 y}, clock advances aimed at record "
              "deadlines and manifest expiries (-1 ns, 0, +1 ns), scheduler ticks and observations; distinct = sha256 of the op list; "
-             "non-trivial = a manifest accepted, a manifest rejected, and a derived record observed both before and after its deadline",
+             "shapes pair / triple: two or three manifests for the SAME chunk id in every order of remaining lifetimes (long->short, "
+             "short->long, equal, far-future first) through ingest / request / announce / replica receipt, a look at the cached key shares "
+             "and the adopted manifest after each, ticks at the last-adopted and the longest expiry -1 ns / 0 / +1 ns; "
+             "non-trivial = (a manifest accepted, a manifest rejected, a derived record observed both before and after its deadline) or "
+             "(two manifests adopted for one chunk id and its key shares observed both present and gone)",
         trusted_base=["tools/extract_c02.py: clang-14 JSON AST -> Lean translation (each translated definition is also compared with the real code by the harness)",
                       "virtual clock by link-time interposition of steady_clock::now / system_clock::now with a settable wall-clock offset",
                       "manifests are produced by a second real Node (store_chunk) and re-encoded with the expiry under test; handle_announce is entered through the friend test::NodeTestAccess",
